@@ -348,6 +348,7 @@ struct Exec
 			if (expect == "ok" && !t.faulted && !m.corrupted)
 			{	std::string disc = t.mode == SFM_READ ? "read" : t.mode == SFM_WRITE ? "write" : "rdwr" ;
 				if (t.mode == SFM_READ && m.written && m.N == 0) disc = "read_empty" ;
+				if (t.mode == SFM_READ && !m.written) disc = "read_nofile" ;
 				char lg [2048] ; lg [0] = 0 ; sf_command (nullptr, SFC_GET_LOG_INFO, lg, sizeof (lg)) ;
 				std::string l = lg ; if (l.size () > 700) l = l.substr (l.size () - 700) ;
 				viol (t, "open.fail", disc, std::string ("open failed: ") + sf_strerror (nullptr) + " | log tail: " + l) ;
@@ -902,6 +903,28 @@ struct Exec
 	typedef SF_BROADCAST_INFO_VAR (20000) BEXT_BIG ;
 	typedef SF_CART_INFO_VAR (20000) CART_BIG ;
 
+	static std::string fld (const char *p, size_t w) { return std::string (p, strnlen (p, w)) ; }
+	static J bext_fields (const BEXT_BIG &b)
+	{	J v = J::obj () ;
+		v ["description"] = fld (b.description, sizeof (b.description)) ; v ["originator"] = fld (b.originator, sizeof (b.originator)) ;
+		v ["originator_reference"] = fld (b.originator_reference, sizeof (b.originator_reference)) ; v ["origination_date"] = fld (b.origination_date, sizeof (b.origination_date)) ;
+		v ["origination_time"] = fld (b.origination_time, sizeof (b.origination_time)) ; v ["time_reference_low"] = (long long) b.time_reference_low ; v ["time_reference_high"] = (long long) b.time_reference_high ;
+		v ["version"] = (int) b.version ; v ["umid"] = hexs (b.umid, sizeof (b.umid)) ; v ["loudness_value"] = (int) b.loudness_value ; v ["loudness_range"] = (int) b.loudness_range ;
+		v ["max_true_peak_level"] = (int) b.max_true_peak_level ; v ["max_momentary_loudness"] = (int) b.max_momentary_loudness ; v ["max_shortterm_loudness"] = (int) b.max_shortterm_loudness ;
+		return v ;
+	}
+	static J cart_fields (const CART_BIG &c)
+	{	J v = J::obj () ;
+		v ["version"] = fld (c.version, sizeof (c.version)) ; v ["title"] = fld (c.title, sizeof (c.title)) ; v ["artist"] = fld (c.artist, sizeof (c.artist)) ; v ["cut_id"] = fld (c.cut_id, sizeof (c.cut_id)) ;
+		v ["client_id"] = fld (c.client_id, sizeof (c.client_id)) ; v ["category"] = fld (c.category, sizeof (c.category)) ; v ["classification"] = fld (c.classification, sizeof (c.classification)) ;
+		v ["out_cue"] = fld (c.out_cue, sizeof (c.out_cue)) ; v ["start_date"] = fld (c.start_date, sizeof (c.start_date)) ; v ["start_time"] = fld (c.start_time, sizeof (c.start_time)) ;
+		v ["end_date"] = fld (c.end_date, sizeof (c.end_date)) ; v ["end_time"] = fld (c.end_time, sizeof (c.end_time)) ; v ["producer_app_id"] = fld (c.producer_app_id, sizeof (c.producer_app_id)) ;
+		v ["producer_app_version"] = fld (c.producer_app_version, sizeof (c.producer_app_version)) ; v ["user_def"] = fld (c.user_def, sizeof (c.user_def)) ; v ["url"] = fld (c.url, sizeof (c.url)) ;
+		v ["level_reference"] = (long long) c.level_reference ;
+		J tm = J::arr () ; for (int k = 0 ; k < 8 ; k++) { tm.push (fld (c.post_timers [k].usage, 4)) ; tm.push ((long long) c.post_timers [k].value) ; } v ["post_timers"] = tm ;
+		return v ;
+	}
+
 	void fill_field (char *dst, size_t width, int64_t stream, int fill)	// fill: 0 empty, 1 half, 2 full width (no NUL)
 	{	memset (dst, 0, width) ;
 		size_t n = fill == 0 ? 0 : fill == 1 ? width / 2 : width ;
@@ -937,7 +960,7 @@ struct Exec
 		int rc = sf_command (t.sf, SFC_SET_BROADCAST_INFO, ex, (int) sz) ;
 		r.ret = rc ; r.err = sf_error (t.sf) ; r.dh = fnv1a (ex, sz) ;
 		after_call (t, r) ;
-		J v = J::obj () ; v ["rc"] = rc ; v ["hex"] = hexs (b, offsetof (BEXT_BIG, coding_history)) ; v ["hist"] = hist ; v ["late"] = t.wr > 0 ? 1 : 0 ;
+		J v = bext_fields (*b) ; v ["rc"] = rc ; v ["hist"] = hist ; v ["late"] = t.wr > 0 ? 1 : 0 ;
 		obs (t, "setbext", v) ;
 		free (ex) ; free (b) ;
 	}
@@ -954,7 +977,8 @@ struct Exec
 		J v = J::obj () ; v ["rc"] = rc ;
 		if (rc)
 		{	uint32_t hs = b->coding_history_size ; if (hs > 20000) hs = 20000 ;
-			v ["hex"] = hexs (b, offsetof (BEXT_BIG, coding_history)) ; v ["hist"] = std::string (b->coding_history, hs) ;
+			J fv = bext_fields (*b) ; for (auto &kv : fv.o) v [kv.first] = kv.second ;
+			v ["hist"] = std::string (b->coding_history, strnlen (b->coding_history, hs)) ; v ["hist_size"] = (long long) b->coding_history_size ;
 			r.dh = fnv1a (b, offsetof (BEXT_BIG, coding_history) + hs) ;
 		}
 		obs (t, "getbext", v) ;
@@ -989,7 +1013,7 @@ struct Exec
 		int rc = sf_command (t.sf, SFC_SET_CART_INFO, ex, (int) sz) ;
 		r.ret = rc ; r.err = sf_error (t.sf) ; r.dh = fnv1a (ex, sz) ;
 		after_call (t, r) ;
-		J v = J::obj () ; v ["rc"] = rc ; v ["hex"] = hexs (c, offsetof (CART_BIG, tag_text)) ; v ["tag"] = tag ; v ["late"] = t.wr > 0 ? 1 : 0 ;
+		J v = cart_fields (*c) ; v ["rc"] = rc ; v ["tag"] = tag ; v ["late"] = t.wr > 0 ? 1 : 0 ;
 		obs (t, "setcart", v) ;
 		free (ex) ; free (c) ;
 	}
@@ -1006,7 +1030,8 @@ struct Exec
 		J v = J::obj () ; v ["rc"] = rc ;
 		if (rc)
 		{	uint32_t ts = c->tag_text_size ; if (ts > 20000) ts = 20000 ;
-			v ["hex"] = hexs (c, offsetof (CART_BIG, tag_text)) ; v ["tag"] = std::string (c->tag_text, ts) ;
+			J fv = cart_fields (*c) ; for (auto &kv : fv.o) v [kv.first] = kv.second ;
+			v ["tag"] = std::string (c->tag_text, strnlen (c->tag_text, ts)) ; v ["tag_size"] = (long long) c->tag_text_size ;
 			r.dh = fnv1a (c, offsetof (CART_BIG, tag_text) + ts) ;
 		}
 		obs (t, "getcart", v) ;
@@ -1091,7 +1116,7 @@ struct Exec
 	{	if (!t.sf) { r.skipped = true ; return ; }
 		SF_INSTRUMENT i ; memset (&i, 0, sizeof (i)) ;
 		int64_t st = op.geti ("stream", 1) ;
-		i.gain = (int) (mix3 (key, st, 1) % 12) ; i.basenote = (char) (mix3 (key, st, 2) % 128) ; i.detune = (char) (mix3 (key, st, 3) % 100) - 50 ;
+		i.gain = (int) (mix3 (key, st, 1) % 12) ; i.basenote = (char) (mix3 (key, st, 2) % 128) ; i.detune = (char) (mix3 (key, st, 3) % 50) ;
 		i.velocity_lo = (char) (mix3 (key, st, 4) % 64) ; i.velocity_hi = (char) (64 + mix3 (key, st, 5) % 64) ; i.key_lo = (char) (mix3 (key, st, 6) % 64) ; i.key_hi = (char) (64 + mix3 (key, st, 7) % 64) ;
 		int64_t nl = op.geti ("loops", 1) ; if (nl < 0) nl = 0 ; if (nl > 16) nl = 16 ;
 		i.loop_count = (int) nl ;
@@ -1207,6 +1232,7 @@ struct Exec
 				ci.datalen = dl ; ci.data = buf ;
 				int rc2 = sf_get_chunk_data (it, &ci) ;
 				e ["rc_data"] = rc2 ; e ["asked"] = (long long) dl ;
+				e ["id"] = std::string (ci.id, strnlen (ci.id, sizeof (ci.id))) ;		// the id is reported by the data call
 				unsigned n = dl < size ? dl : size ;
 				e ["hash"] = (long long) (fnv1a (buf, n) >> 1) ; e ["n"] = (long long) n ;
 				if (dl > size) { bool untouched = true ; for (unsigned k = size ; k < dl ; k++) if (buf [k] != 0xA5) untouched = false ; e ["tail_untouched"] = untouched ; }
@@ -1223,12 +1249,38 @@ struct Exec
 		obs (t, "iterchunks", v) ;
 	}
 
+	// per-channel maximum |sample| of the whole file, read as double on a second handle with the given normalisation
+	std::vector<double> true_max (Task &t, bool norm)
+	{	std::vector<double> mx ((size_t) (t.ch > 0 ? t.ch : 1), 0.0) ;
+		SF_INFO info ; memset (&info, 0, sizeof (info)) ;
+		if (t.fmt && t.fmt->major == SF_FORMAT_RAW) { info.format = t.fmt->format ; info.channels = t.ch ; info.samplerate = t.rate ; }
+		bool save_trace = os.trace_io_enabled ; int save_task = os.cur_task ;
+		os.trace_io_enabled = false ; os.cur_task = -1 ; os.in_lib = true ; os.op_budget = 0 ;
+		SimVio v ; v.f = store_file (t.store) ; v.off = 0 ;
+		SF_VIRTUAL_IO vio = simos_vio () ;
+		SNDFILE *h = (t.route == "path" && t.fmt && needs_path_route (*t.fmt)) ? sf_open (("/sim/cwd/" + t.store).c_str (), SFM_READ, &info) : sf_open_virtual (&vio, SFM_READ, &info, &v) ;
+		if (h)
+		{	sf_command (h, SFC_SET_NORM_DOUBLE, nullptr, norm ? SF_TRUE : SF_FALSE) ;
+			int64_t items = info.frames * info.channels ;
+			if (items > 0 && items < (1 << 26) && info.channels == (int) mx.size ())
+			{	double *buf = (double *) malloc ((size_t) items * sizeof (double)) ;
+				sf_count_t got = sf_readf_double (h, buf, info.frames) ;
+				for (int64_t k = 0 ; k < got * info.channels ; k++) { double a = fabs (buf [k]) ; if (a > mx [(size_t) (k % info.channels)]) mx [(size_t) (k % info.channels)] = a ; }
+				free (buf) ;
+			}
+			sf_close (h) ;
+		}
+		os.in_lib = false ; os.trace_io_enabled = save_trace ; os.cur_task = save_task ;
+		return mx ;
+	}
+
 	// generic query commands with exact-size buffers (used by C03 / C16 / C18 / C19 histories)
 	void op_query (Task &t, const J &op, Rec &r)
 	{	if (!t.sf) { r.skipped = true ; return ; }
 		std::string id = op.gets ("id") ;
 		int ch = t.ch > 0 ? t.ch : 1 ;
 		r.api = "query:" + id ;
+		Digest d0q = digest (t) ;
 		os.begin_op (t.id, (int) t.pc, "sf_command", budget_for (t, 0) + (t.frames > 0 ? 64 * t.frames : 0)) ;
 		GUARD (t, r) ;
 		int rc = 0 ; uint64_t h = 0 ; J v = J::obj () ;
@@ -1255,6 +1307,14 @@ struct Exec
 		r.ret = rc ; r.err = sf_error (t.sf) ; r.dh = h ;
 		after_call (t, r) ;
 		v ["rc"] = rc ; v ["id"] = id ; v ["rd"] = (long long) t.rd ;
+		if (id.compare (0, 5, "calc_") == 0 && t.mode == SFM_READ && t.seekable && !t.stop && !t.faulted && !sm [t.store].corrupted && op.geti ("expect", 1))
+		{	// the true maximum of the stored samples under the same normalisation, from an independent sequential decode
+			bool norm = id.find ("norm") != std::string::npos ;
+			std::vector<double> mx = true_max (t, norm) ;
+			J e = J::arr () ; for (double x : mx) e.push (x) ; v ["expected"] = e ;
+			Digest dq = digest (t) ;
+			if (dq.ok && dq.v [DG_NORM_DOUBLE] != d0q.v [DG_NORM_DOUBLE]) viol (t, "calc.norm_changed", id, "CALC command left the double normalisation setting changed") ;
+		}
 		obs (t, "query", v) ;
 		// queries are pure: the read position must be where the model left it
 		Digest d = digest (t) ;
@@ -1566,6 +1626,85 @@ struct Exec
 		}
 	}
 
+	// ------------------------------------------------------------------------------------------
+	// command storm (C17): any command id x datasize x {NULL, exact-size heap block}
+
+	struct CmdSpec { int id ; const char *name ; char cls ; int size ; } ;		// cls: Q query, S switch, M metadata, X acts on store; size: natural datasize (-1 = channels * 8, -2 = channels * 4)
+	static const std::vector<CmdSpec> &cmd_table ()
+	{	static const std::vector<CmdSpec> t = {
+			{ SFC_GET_LIB_VERSION, "GET_LIB_VERSION", 'Q', 64 }, { SFC_GET_LOG_INFO, "GET_LOG_INFO", 'Q', 512 }, { SFC_GET_CURRENT_SF_INFO, "GET_CURRENT_SF_INFO", 'Q', sizeof (SF_INFO) },
+			{ SFC_GET_NORM_DOUBLE, "GET_NORM_DOUBLE", 'Q', 0 }, { SFC_GET_NORM_FLOAT, "GET_NORM_FLOAT", 'Q', 0 }, { SFC_SET_NORM_DOUBLE, "SET_NORM_DOUBLE", 'S', 0 }, { SFC_SET_NORM_FLOAT, "SET_NORM_FLOAT", 'S', 0 },
+			{ SFC_SET_SCALE_FLOAT_INT_READ, "SET_SCALE_FLOAT_INT_READ", 'S', 0 }, { SFC_SET_SCALE_INT_FLOAT_WRITE, "SET_SCALE_INT_FLOAT_WRITE", 'S', 0 },
+			{ SFC_GET_SIMPLE_FORMAT_COUNT, "GET_SIMPLE_FORMAT_COUNT", 'Q', sizeof (int) }, { SFC_GET_SIMPLE_FORMAT, "GET_SIMPLE_FORMAT", 'Q', sizeof (SF_FORMAT_INFO) }, { SFC_GET_FORMAT_INFO, "GET_FORMAT_INFO", 'Q', sizeof (SF_FORMAT_INFO) },
+			{ SFC_GET_FORMAT_MAJOR_COUNT, "GET_FORMAT_MAJOR_COUNT", 'Q', sizeof (int) }, { SFC_GET_FORMAT_MAJOR, "GET_FORMAT_MAJOR", 'Q', sizeof (SF_FORMAT_INFO) },
+			{ SFC_GET_FORMAT_SUBTYPE_COUNT, "GET_FORMAT_SUBTYPE_COUNT", 'Q', sizeof (int) }, { SFC_GET_FORMAT_SUBTYPE, "GET_FORMAT_SUBTYPE", 'Q', sizeof (SF_FORMAT_INFO) },
+			{ SFC_CALC_SIGNAL_MAX, "CALC_SIGNAL_MAX", 'Q', sizeof (double) }, { SFC_CALC_NORM_SIGNAL_MAX, "CALC_NORM_SIGNAL_MAX", 'Q', sizeof (double) },
+			{ SFC_CALC_MAX_ALL_CHANNELS, "CALC_MAX_ALL_CHANNELS", 'Q', -1 }, { SFC_CALC_NORM_MAX_ALL_CHANNELS, "CALC_NORM_MAX_ALL_CHANNELS", 'Q', -1 },
+			{ SFC_GET_SIGNAL_MAX, "GET_SIGNAL_MAX", 'Q', sizeof (double) }, { SFC_GET_MAX_ALL_CHANNELS, "GET_MAX_ALL_CHANNELS", 'Q', -1 },
+			{ SFC_SET_ADD_PEAK_CHUNK, "SET_ADD_PEAK_CHUNK", 'M', 0 }, { SFC_UPDATE_HEADER_NOW, "UPDATE_HEADER_NOW", 'X', 0 }, { SFC_SET_UPDATE_HEADER_AUTO, "SET_UPDATE_HEADER_AUTO", 'S', 0 },
+			{ SFC_FILE_TRUNCATE, "FILE_TRUNCATE", 'X', sizeof (sf_count_t) }, { SFC_SET_RAW_START_OFFSET, "SET_RAW_START_OFFSET", 'X', sizeof (sf_count_t) },
+			{ SFC_SET_DITHER_ON_WRITE, "SET_DITHER_ON_WRITE", 'S', sizeof (SF_DITHER_INFO) }, { SFC_SET_DITHER_ON_READ, "SET_DITHER_ON_READ", 'S', sizeof (SF_DITHER_INFO) },
+			{ SFC_GET_DITHER_INFO_COUNT, "GET_DITHER_INFO_COUNT", 'Q', sizeof (int) }, { SFC_GET_DITHER_INFO, "GET_DITHER_INFO", 'Q', sizeof (SF_DITHER_INFO) },
+			{ SFC_GET_EMBED_FILE_INFO, "GET_EMBED_FILE_INFO", 'Q', sizeof (SF_EMBED_FILE_INFO) }, { SFC_SET_CLIPPING, "SET_CLIPPING", 'S', 0 }, { SFC_GET_CLIPPING, "GET_CLIPPING", 'Q', 0 },
+			{ SFC_GET_CUE_COUNT, "GET_CUE_COUNT", 'Q', sizeof (uint32_t) }, { SFC_GET_CUE, "GET_CUE", 'Q', sizeof (SF_CUES) }, { SFC_SET_CUE, "SET_CUE", 'M', sizeof (SF_CUES) },
+			{ SFC_GET_INSTRUMENT, "GET_INSTRUMENT", 'Q', sizeof (SF_INSTRUMENT) }, { SFC_SET_INSTRUMENT, "SET_INSTRUMENT", 'M', sizeof (SF_INSTRUMENT) }, { SFC_GET_LOOP_INFO, "GET_LOOP_INFO", 'Q', sizeof (SF_LOOP_INFO) },
+			{ SFC_GET_BROADCAST_INFO, "GET_BROADCAST_INFO", 'Q', sizeof (SF_BROADCAST_INFO) }, { SFC_SET_BROADCAST_INFO, "SET_BROADCAST_INFO", 'M', sizeof (SF_BROADCAST_INFO) },
+			{ SFC_GET_CHANNEL_MAP_INFO, "GET_CHANNEL_MAP_INFO", 'Q', -2 }, { SFC_SET_CHANNEL_MAP_INFO, "SET_CHANNEL_MAP_INFO", 'M', -2 }, { SFC_RAW_DATA_NEEDS_ENDSWAP, "RAW_DATA_NEEDS_ENDSWAP", 'Q', 0 },
+			{ SFC_WAVEX_SET_AMBISONIC, "WAVEX_SET_AMBISONIC", 'S', 0 }, { SFC_WAVEX_GET_AMBISONIC, "WAVEX_GET_AMBISONIC", 'Q', 0 }, { SFC_RF64_AUTO_DOWNGRADE, "RF64_AUTO_DOWNGRADE", 'S', 0 },
+			{ SFC_SET_VBR_ENCODING_QUALITY, "SET_VBR_ENCODING_QUALITY", 'S', sizeof (double) }, { SFC_SET_COMPRESSION_LEVEL, "SET_COMPRESSION_LEVEL", 'S', sizeof (double) },
+			{ SFC_SET_OGG_PAGE_LATENCY_MS, "SET_OGG_PAGE_LATENCY_MS", 'S', sizeof (double) }, { SFC_SET_OGG_PAGE_LATENCY, "SET_OGG_PAGE_LATENCY", 'S', sizeof (double) },
+			{ SFC_GET_OGG_STREAM_SERIALNO, "GET_OGG_STREAM_SERIALNO", 'Q', sizeof (int32_t) }, { SFC_GET_BITRATE_MODE, "GET_BITRATE_MODE", 'Q', sizeof (int) }, { SFC_SET_BITRATE_MODE, "SET_BITRATE_MODE", 'S', sizeof (int) },
+			{ SFC_SET_CART_INFO, "SET_CART_INFO", 'M', sizeof (SF_CART_INFO) }, { SFC_GET_CART_INFO, "GET_CART_INFO", 'Q', sizeof (SF_CART_INFO) },
+			{ SFC_SET_ORIGINAL_SAMPLERATE, "SET_ORIGINAL_SAMPLERATE", 'S', sizeof (int) }, { SFC_GET_ORIGINAL_SAMPLERATE, "GET_ORIGINAL_SAMPLERATE", 'Q', sizeof (int) },
+			{ SFC_TEST_IEEE_FLOAT_REPLACE, "TEST_IEEE_FLOAT_REPLACE", 'S', 0 }, { SFC_SET_ADD_HEADER_PAD_CHUNK, "SET_ADD_HEADER_PAD_CHUNK", 'S', 0 },
+			{ SFC_SET_ADD_DITHER_ON_WRITE, "SET_ADD_DITHER_ON_WRITE", 'S', 0 }, { SFC_SET_ADD_DITHER_ON_READ, "SET_ADD_DITHER_ON_READ", 'S', 0 },
+			{ 0, "UNDEF_0", 'U', 0 }, { 0x0FFF, "UNDEF_0FFF", 'U', 8 }, { 0x7FFFFFFF, "UNDEF_MAX", 'U', 8 }, { -1, "UNDEF_NEG", 'U', 8 }, { 0x1234, "UNDEF_1234", 'U', 16 } } ;
+		return t ;
+	}
+
+	void op_storm (Task &t, const J &op, Rec &r)
+	{	const std::vector<CmdSpec> &tab = cmd_table () ;
+		const CmdSpec &c = tab [(size_t) op.geti ("cmd", 0) % tab.size ()] ;
+		bool null_handle = op.geti ("null_handle", 0) != 0 ;
+		if (!null_handle && !t.sf) { r.skipped = true ; return ; }
+		if (op.geti ("pure", 0) && c.cls != 'Q') { r.skipped = true ; return ; }
+		int ch = t.ch > 0 ? t.ch : 1 ;
+		int nat = c.size >= 0 ? c.size : c.size == -1 ? ch * 8 : ch * 4 ;
+		int64_t dv = op.geti ("dsz", 3) ;		// datasize variant
+		int datasize = dv == 0 ? 0 : dv == 1 ? 1 : dv == 2 ? (nat > 0 ? nat - 1 : 0) : dv == 3 ? nat : dv == 4 ? nat + 1 : dv == 5 ? nat + 8 : dv == 6 ? 4096 : dv == 7 ? 70000 : (int) (dv % 700) ;
+		if (datasize < 0) datasize = 0 ;
+		bool null_data = op.geti ("null_data", 0) != 0 ;
+		// mutators are injected only where the caller asked for "any" commands; their arguments are kept harmless
+		uint8_t *buf = null_data ? nullptr : (uint8_t *) malloc (datasize ? (size_t) datasize : 1) ;
+		if (buf) for (int k = 0 ; k < datasize ; k++) buf [k] = (uint8_t) (mix3 (key, 0x5707, (uint64_t) (k + op.geti ("fill", 0))) % 3) ;		// small values: indices / flags stay plausible
+		if (buf && c.id == SFC_FILE_TRUNCATE) { free (buf) ; r.skipped = true ; return ; }
+		Snap s0 ; if (!null_handle) s0 = snap (t) ;
+		r.api = std::string ("storm:") + c.name ;
+		os.begin_op (t.id, (int) t.pc, "sf_command", budget_for (t, 0) + (t.frames > 0 ? 64 * t.frames : 0)) ;
+		GUARD (t, r) ;
+		int rc = sf_command (null_handle ? nullptr : t.sf, c.id, buf, datasize) ;
+		r.ret = rc ; r.err = null_handle ? 0 : sf_error (t.sf) ;
+		if ((c.id == SFC_GET_LIB_VERSION || c.id == SFC_GET_LOG_INFO) && buf && datasize >= 1)
+		{	bool nul = false ; for (int k = 0 ; k < datasize ; k++) if (buf [k] == 0) { nul = true ; break ; }
+			if (!nul) { after_call (t, r) ; viol (t, "storm.nul", c.name, "string-returning command left no NUL within datasize") ; free (buf) ; return ; }
+		}
+		r.dh = (uint64_t) c.id * 1000003ULL + (uint64_t) datasize * 31 + (null_data ? 7 : 0) ;
+		after_call (t, r) ;
+		probe ("storm_commands") ;
+		if (dv != 3) probe ("storm_inexact_datasize") ;
+		if (!null_handle && c.cls == 'Q' && !t.stop && !t.faulted)
+		{	Snap s1 = snap (t) ;
+			std::string d = snap_diff (s0, s1) ;
+			if (!d.empty ()) { char b [200] ; snprintf (b, sizeof (b), "query command %s (datasize %d) changed %s", c.name, datasize, d.c_str ()) ; viol (t, "storm.pure", std::string (c.name) + ":" + d + (t.mode == SFM_RDWR ? "+rdwr" : t.mode == SFM_WRITE ? "+write" : ""), b) ; }
+		}
+		if (!null_handle && c.cls != 'Q' && t.sf)
+		{	// a switch or mutator may legitimately change settings: resynchronise the position model from the handle
+			Digest d = digest (t) ; if (d.ok) { sync_pos (t, d) ; }
+			if (c.cls == 'M' || c.cls == 'X') { sm [t.store].clean = false ; }
+		}
+		free (buf) ;
+	}
+
 	bool step (Task &t) ;
 	void run () ;
 } ;
@@ -1601,6 +1740,7 @@ bool Exec::step (Task &t)
 	else if (kind == "corrupt") op_corrupt (t, op, r) ;
 	else if (kind == "crash") op_crash (t, op, r) ;
 	else if (kind == "bad") op_bad (t, op, r) ;
+	else if (kind == "storm") op_storm (t, op, r) ;
 	else if (kind == "badopen") op_badopen (t, op, r) ;
 	else r.skipped = true ;
 	r.frames = t.sf ? t.frames : -1 ;
